@@ -144,8 +144,10 @@ pub fn pool_request(v: Version, k: usize) -> Vec<u8> {
 ///  6: a framed request naming only the classic version number (no supported version for a frame)
 ///  7 / 8: a valid classic request followed by one / three stray bytes (length not a multiple of 4)
 ///  9: a well-formed IETF request that names ANOTHER server (foreign SRV value)
+///  10 / 11: an IETF request whose SRV value is only the first 16 bytes of the default in-process
+///      server's value / is empty (a value that is not this server's)
 pub fn bad_datagram(variant: usize) -> Vec<u8> {
-    match variant % 10 {
+    match variant % 12 {
         0 => {
             // right length, not a message
             let mut d = vec![0x03, 0, 0, 0, 0xff, 0xff, 0xff, 0xff];
@@ -167,10 +169,12 @@ pub fn bad_datagram(variant: usize) -> Vec<u8> {
         6 => rtref::responder::ietf_request(&[0, 0, 0, 0], None, &nonce(0x9103, 32), 1024),
         7 | 8 => {
             let mut d = rtref::responder::classic_request(&nonce(0x9104, 64), 1024);
-            d.extend(std::iter::repeat(0x5a).take(if variant % 10 == 7 { 1 } else { 3 }));
+            d.extend(std::iter::repeat(0x5a).take(if variant % 12 == 7 { 1 } else { 3 }));
             d
         }
         9 => rtref::responder::ietf_request(&rtref::proto::VER_IETF13, Some(&crypto::srv_value(&crypto::public_key(&[0x33; 32]))), &nonce(0x9105, 32), 1024),
+        10 => rtref::responder::ietf_request(&rtref::proto::VER_IETF13, Some(&crypto::srv_value(&crypto::public_key(&crate::inproc::DEFAULT_SEED))[..16]), &nonce(0x9106, 32), 1024),
+        11 => rtref::responder::ietf_request(&rtref::proto::VER_IETF13, Some(&[]), &nonce(0x9107, 32), 1024),
         _ => {
             let mut d = rtref::responder::classic_request(&nonce(0x9102, 64), 1024);
             d.truncate(1020);
